@@ -92,7 +92,7 @@ def _c17_from_email_unparsed_first(v, m):
     try:
         M.Metadata.from_email(G.build_doc(doc))
     except M.ExceptionGroup as g:
-        return sorted(getattr(e, "field", "") for e in g.exceptions) == sorted(exp[1])
+        return {getattr(e, "field", "") for e in g.exceptions} == set(exp[1])
     except Exception:
         return False
     return False
